@@ -60,3 +60,15 @@ impl PrivKey {
         })
     }
 }
+
+#[cfg(gufo_snmp_verif)]
+impl PrivKey {
+    /// Verification hook: start the salt counter of the installed key at a chosen value
+    pub fn set_salt_value(&mut self, value: u64) {
+        match self {
+            PrivKey::NoPriv(_) => {}
+            PrivKey::Des(k) => k.set_salt_value(value),
+            PrivKey::Aes128(k) => k.set_salt_value(value),
+        }
+    }
+}
